@@ -5,6 +5,12 @@ package consensus
 import (
 	"bytes"
 	"encoding/binary"
+	cfg "github.com/tendermint/tendermint/config"
+	cstypes "github.com/tendermint/tendermint/consensus/types"
+	"github.com/tendermint/tendermint/crypto/ed25519"
+	"github.com/tendermint/tendermint/libs/log"
+	sm "github.com/tendermint/tendermint/state"
+	dbm "github.com/tendermint/tm-db"
 	"hash/crc32"
 	"io"
 	"os"
@@ -458,3 +464,58 @@ func tmtypesEventRound(r int32) types.EventDataRoundState {
 
 func VP_C15_Repair_1() { vpC15RepairLifetimes(1) }
 func VP_C15_Repair_2() { vpC15RepairLifetimes(2) }
+
+// C15-H5: replay of the unfinished height at the chain's first height, for chains that do not start
+// at height 1: the WAL of a node that crashed in its first height begins with the end-of-height marker
+// for height 0 whatever the initial height is; the logged records of the unfinished height are replayed.
+func VP_C15_CatchupAtInitialHeight() {
+	ih := int64([]int{1, 2, 10}[vp.Choice("initial-height", 3)])
+	var keys []ed25519.PrivKey
+	vals := make([]types.GenesisValidator, 4)
+	for i := range vals {
+		k := ed25519.GenPrivKeyFromSecret([]byte{'c', 's', byte(i)})
+		keys = append(keys, k)
+		vals[i] = types.GenesisValidator{Address: k.PubKey().Address(), PubKey: k.PubKey(), Power: 10, Name: "v"}
+	}
+	gen := &types.GenesisDoc{GenesisTime: time.Date(2022, 1, 1, 0, 0, 0, 0, time.UTC), ChainID: vpStepChain, InitialHeight: ih,
+		ConsensusParams: types.DefaultConsensusParams(), Validators: vals}
+	state, err := sm.MakeGenesisState(gen)
+	if err != nil {
+		panic(err)
+	}
+	stateStore := sm.NewStore(dbm.NewMemDB(), sm.StoreOptions{})
+	blockExec := sm.NewBlockExecutor(stateStore, log.NewNopLogger(), nil, emptyMempool{}, sm.EmptyEvidencePool{})
+	cs := NewState(cfg.DefaultConsensusConfig(), state, blockExec, &vpBlockStoreStub{w: &vpWorld{}}, nil, sm.EmptyEvidencePool{})
+	cs.timeoutTicker = &vpTicker{w: &vpWorld{}}
+	bus := types.NewEventBus()
+	if err := bus.Start(); err != nil {
+		panic(err)
+	}
+	cs.SetEventBus(bus)
+	vp.Assert(cs.Height == ih && cs.Step == cstypes.RoundStepNewHeight, "C15.catchup.harness-starts-at-the-initial-height")
+	walFile := vp.TempDir() + "/wal"
+	w, err := NewWAL(walFile, autofile.GroupCheckDuration(time.Hour))
+	if err != nil {
+		panic(err)
+	}
+	if err := w.Start(); err != nil { // a fresh WAL begins with the marker for height 0
+		panic(err)
+	}
+	if err := w.WriteSync(timeoutInfo{Duration: time.Second, Height: ih, Round: 0, Step: cstypes.RoundStepNewHeight}); err != nil {
+		panic(err)
+	}
+	w.Stop()
+	w.Wait()
+	w2, err := NewWAL(walFile, autofile.GroupCheckDuration(time.Hour))
+	if err != nil {
+		panic(err)
+	}
+	if err := w2.Start(); err != nil {
+		panic(err)
+	}
+	cs.wal = w2
+	err = cs.catchupReplay(cs.Height)
+	vp.Assert(err == nil, "C15.catchup.the-unfinished-first-height-is-replayed-whatever-the-initial-height")
+	vp.Assert(cs.Step > cstypes.RoundStepNewHeight, "C15.catchup.logged-timeout-of-the-unfinished-height-took-effect")
+	vp.Reach("replayed")
+}
